@@ -125,10 +125,11 @@ def _engine_case(args):
 
 def _unvalidated_case(args):
     """Names that never pass through the API validator: a child launch's Parameters.Name and a raw start event's Execution.Name."""
-    name, typ = args
+    name, typ = args[0], args[1]
+    region = args[2] if len(args) > 2 else "local"
     from harness.world import World, sm_arn
     child = {"StartAt": "C", "States": {"C": {"Type": "Pass", "End": True}}}
-    parent = {"StartAt": "L", "States": {"L": {"Type": "Task", "Resource": "arn:aws:states:local::states:startExecution",
+    parent = {"StartAt": "L", "States": {"L": {"Type": "Task", "Resource": "arn:aws:states:%s::states:startExecution" % region,
                                                "Parameters": {"StateMachineArn": sm_arn("kid"), "Input": {}, "Name": name}, "End": True}}}
     sc = {"name": "c17u", "machines": {"par": {"definition": parent}, "kid": {"definition": child, "type": typ}}, "record_sites": False,
           "starts": [{"machine": "par", "name": "p1", "input": {}}],
@@ -162,6 +163,7 @@ def run(tier, seed):
         for i in range(0, len(pick), 4):
             jobs.append((pick[i:i + 4], ["e", "a.b-c_d", pick[i]], typ))
     ujobs = [(nm, typ) for nm in ("c1", "a.b", "a:b", "a/b", "a b", "x:y:z") for typ in ("STANDARD", "EXPRESS")]
+    ujobs += [("c1", typ, reg) for typ in ("STANDARD", "EXPRESS") for reg in ("", "eu-west-1")]
     ctx = multiprocessing.get_context("fork")
     with ctx.Pool(common.JOBS) as pool:
         outs = pool.map(_engine_case, jobs, chunksize=1)
@@ -172,7 +174,8 @@ def run(tier, seed):
         for kind, m, e, got in res:
             sig = "derive|%s|%s" % (kind, typ)
             cr.add(sig, "machine %r execution %r: %s -> %r" % (m, e, kind, got), {"kind": "derive", "property": PROP, "signature": sig, "machine": m, "execution": e, "type": typ}, size=len(m) + len(e))
-    for (nm, typ), res in zip(ujobs, uouts):
+    for uj, res in zip(ujobs, uouts):
+        nm, typ = uj[0], uj[1]
         nc += 1
         for kind, name, t, got in res:
             sep = ":" if ":" in name else "/" if "/" in name else "other"
